@@ -59,6 +59,7 @@ def verdict (toks : List String) (out0 : String) : String :=
             ++ " mirror"
             ++ (if m = "bom" then
                   (if Bom.completeB (Bom.build p) p && Bom.monotoneB (Bom.build p) p.reverse
+                      && Bom.buildS p == some (Bom.build p)
                    then " bom-table-ok" else " bom-table-cond-FAILED")
                   ++ (match realTable with
                       | some rt => if rt = showBomTable (Bom.build p) then " bom-table-same" else " drift-bom-table"
